@@ -27,3 +27,28 @@ Definition needs_decoding (h : string) : bool := negb (String.eqb h "") && negb 
 Definition wire_decoded (r : request) : bool :=
   (if needs_decoding (h_if_match r) then ostr_eqb (d_if_match r) (decode_cond (h_if_match r)) else true) &&
   (if needs_decoding (h_if_none_match r) then ostr_eqb (d_if_none_match r) (decode_cond (h_if_none_match r)) else true).
+
+(** * The Destination header from its bytes
+
+    [h_dest] of the modelled request is what url.Parse makes of the header; with the
+    model of url.Parse of property C16 (Href.v) the oracle checks, on every explored
+    request, that the harness-derived input is the model's reading of the raw bytes.
+    The authority component is not modelled (Href.v): for a text with an authority
+    Go may additionally refuse the host, so both outcomes are admitted there. *)
+From GW Require Import Href.
+
+Definition dest_eqb (a b : dest_hdr) : bool :=
+  match a, b with
+  | DestAbsent, DestAbsent => true
+  | DestBad, DestBad => true
+  | DestPath p, DestPath q => String.eqb p q
+  | _, _ => false
+  end.
+
+Definition dest_decoded (raw : string) (d : dest_hdr) : bool :=
+  if String.eqb raw "" then dest_eqb d DestAbsent
+  else match url_parse raw with
+       | None => dest_eqb d DestBad
+       | Some (HUrl u) => dest_eqb d (DestPath (u_path u))
+       | Some (HAuth _ u) => dest_eqb d (DestPath (u_path u)) || dest_eqb d DestBad
+       end.
